@@ -18,11 +18,11 @@ OUTCOME_STATUS = {'s': 0x0000, 'w': 0xB000, 'f': 0xA700}
 # ------------------------------------------------------------------------------------------------
 # C-MOVE provider
 
-def move_case(n, outcomes, msg_id=5, pc_id=1, default_handler=False, declared=None, lazy=False):
+def move_case(n, outcomes, msg_id=5, pc_id=1, default_handler=False, declared=None, lazy=False, confirm_release=True):
     """n data sets supplied by the application, outcomes: string over 's','w','f' per sub-operation."""
     from pynetdicom2 import sopclass
     case = {'kind': 'move', 'n': n, 'outcomes': outcomes, 'msg_id': msg_id, 'pc_id': pc_id, 'default': default_handler,
-            'lazy': lazy}
+            'lazy': lazy, 'confirm_release': confirm_release}
     dss = [svc.simple_ds(PatientName='P%d' % i, PatientID='ID%d' % i, SOPClassUID=svc.SC_STORAGE,
                          SOPInstanceUID='1.2.826.0.1.3680043.9.19.%d' % (i + 1)) for i in range(n)]
     handlers = {}
@@ -35,10 +35,11 @@ def move_case(n, outcomes, msg_id=5, pc_id=1, default_handler=False, declared=No
     statuses = [OUTCOME_STATUS[o] for o in outcomes] or [0]
     try:
         acc, fac, exc = fd.run_acceptor(ae, [svc.primary_plan([(pc_id, svc.PATIENT_MOVE)], [(req, ident, pc_id)]),
-                                             svc.sub_plan(statuses)], lazy=lazy)
+                                             svc.sub_plan(statuses, confirm_release=confirm_release)], lazy=lazy)
     finally:
         ae.server_close()
-    if exc is not None:
+    from pynetdicom2 import exceptions as _ex
+    if exc is not None and not (not confirm_release and n > 0 and isinstance(exc, _ex.NetDICOMError)):
         raise Violation('%s:move:exception:%s' % (PROP, lib_frame(exc)),
                         'C-MOVE provider (n=%d%s) raised %r' % (n, ', default handler' if default_handler else '', exc), case)
     primary = fac.instances[0]
@@ -295,6 +296,9 @@ def run_move_enum(ctx, job):
                          labels=['move', 'n=%d' % n], sample={'n': n, 'outcomes': oc, 'msg_id': mid})
                 ctx.check(move_case, n, oc, mid, pc)
                 ctx.check(move_case, n, oc, mid, pc, False, None, True)      # slow provider thread
+                if n and n <= 3:
+                    # the destination takes everything but never confirms the release of its association
+                    ctx.check(move_case, n, oc, mid, pc, False, None, len(oc) % 2 == 0, False)
     if 0 in job['ns']:
         ctx.case(('move', 'default-handler'), True, labels=['move', 'default-handler'])
         ctx.check(move_case, 0, '', 5, 1, True)
@@ -341,7 +345,7 @@ def shard(ctx, job):
 def run(ctx):
     warnings.simplefilter('ignore')
     ctx.rule = ('C-MOVE provider: every outcome string over {success, warning, failure} for 0-4 sub-operations '
-                '(exhaustive), sampled for 5-8, the default handler (nothing to move, destination unknown), boundary '
+                '(exhaustive), sampled for 5-8, the default handler (nothing to move, destination unknown), a destination that never confirms the release, boundary '
                 'message/context ids; 1-3 moves on one association to one destination described by one dict (with and without credentials);  C-GET user: peer scripts interleaving 0-8 C-STORE requests (two SOP classes, '
                 'in-memory and file-backed) with pending C-GET responses, handler outcomes success/warning/failure/'
                 'EventHandlingError, final statuses success/warning/failure/cancel; non-trivial = n>=2 with mixed '
@@ -368,6 +372,7 @@ def replay(case):
     if case['kind'] == 'repeated-moves':
         repeated_moves(case['moves'], case['creds'], case.get('lazy', False))
     elif case['kind'] == 'move':
-        move_case(case['n'], case['outcomes'], case['msg_id'], case['pc_id'], case.get('default', False), None, case.get('lazy', False))
+        move_case(case['n'], case['outcomes'], case['msg_id'], case['pc_id'], case.get('default', False), None, case.get('lazy', False),
+                  case.get('confirm_release', True))
     else:
         get_case(case['script'], case['handler_outcomes'], case['final_status'], case['file_backed'], case['msg_id'])
